@@ -3,13 +3,14 @@ import MCHap.Properties.C17
 #print axioms MCHap.C17.mem_compositions_iff
 #print axioms MCHap.C17.hyper_sum_one
 #print axioms MCHap.C17.gamete_sum_one
+#print axioms MCHap.C17.gameteSpec_nonneg
 #print axioms MCHap.C17.unknown_sum_one
 #print axioms MCHap.C17.mixture_sum_one
 #print axioms MCHap.C17.sum_regroup
 #print axioms MCHap.C17.trio_sum_one
-#print axioms MCHap.C17.multinomial_convolution
 #print axioms MCHap.C17.increment_decreasing
+#print axioms MCHap.C17.enumerator_sound
 #print axioms MCHap.C17.gameteSpec_pos_iff
 #print axioms MCHap.C17.positive_iff_valid
 #print axioms MCHap.C17.duo_positive_iff_valid
-#print axioms MCHap.C17.trioCode_eq_spec
+#print axioms MCHap.C17.enumerator_complete_small
